@@ -38,9 +38,11 @@
     the real ids in order of successful creation), so the model does not depend on
     whether an id is drawn before or after the uniqueness check.
 
-    [fx] selects [Store.DeleteOrg]: [fx = false] is the code as it is (the index key
-    removed is [[]byte(u.Name)], NOT [organizationIndexKey(u.Name)]), [fx = true] the
-    repaired code.  The judge uses [fx = false]. *)
+    [fx] selects the version of [Store.DeleteOrg]: [fx = true] is the code as it is now
+    (since /repo commit 80e129d9b5 the index key removed is [organizationIndexKey(u.Name)]),
+    [fx = false] the code before that commit (it removed [[]byte(u.Name)], leaving the
+    entry of a blank-padded name behind), kept only to record the counterexample.  The
+    correspondence judge and the property theorems use [fx = true]. *)
 From Verif Require Import Base.Prelude.
 
 Definition oname := (N * N)%type.
@@ -590,6 +592,6 @@ Fixpoint expand (prev : obs) (os : list obs) : list obs :=
 
 Definition check (c : case) : verdict :=
   let os := expand empty_obs (c_obs c) in
-  let same := same_trace os (trace false init (c_ops c)) in
+  let same := same_trace os (trace true init (c_ops c)) in
   let ok := ok_trace empty_obs (c_ops c) os in
   judge same ok.
